@@ -31,6 +31,11 @@ TEMPLATES = {
     "two_mode_bridge": ["Sgate({a}) | 0", "Sgate({b}) | 2", "BSgate({a}, {b}) | [0, 2]", "Rgate(8*{a}) | 1", "MeasureX | 1"],
     "single": ["Dgate({p}) | 0"],
     "with_target": ["Dgate({a}, 1.25) | 0", "Sgate(3*{a}) | 1"],
+    "same_gate_many_modes": ["Rgate({a}) | 0", "Rgate({b}) | 1", "Rgate({c}) | 2", "Rgate(2*{a}+{b}*0+1) | 3"] if False else ["Rgate({a}) | 0", "Rgate({b}) | 1", "Rgate({c}) | 2", "Rgate(2*{a}+1) | 3"],
+    "two_mode_chain": ["BSgate({t}, 0.5) | [0, 1]", "BSgate(0.25, {u}) | [1, 2]", "BSgate({t}/2, {u}*4) | [2, 3]", "Rgate(-{u}+1) | 0"],
+    "kwargs_present": ["Dgate({a}, 0.5) | 0", "MeasureHomodyne(phi=0.25) | 0", "Sgate(8*{a}-2) | 1"],
+    "five_ops": ["Ag({a}) | 0", "Bg({b}) | 1", "Cg({a}+0.5, {b}-0.5) | [0, 1]", "Dg(4*{b}) | 2", "Eg(-{a}/8) | [2, 0]"],
+    "offset_only_and_scale_only": ["Dgate({p}+1.5) | 0", "Dgate(4*{q}) | 1", "Dgate({p}-0.25, {q}/2) | 2"],
 }
 HEADERS = {"with_target": "name t\nversion 1.0\ntarget X8 (shots=10)\n\n"}
 
